@@ -199,7 +199,7 @@ def spec_verdict(o, a, s):
 
 
 def exec_three(lines, tag):
-    d = os.path.join(core.BUILD, "scratch")
+    d = core.SCRATCH
     os.makedirs(d, exist_ok=True)
     p = os.path.join(d, f"{tag}.ops")
     with open(p, "w") as f:
@@ -256,7 +256,7 @@ def run(r: core.Run, mode, prop_module, what, known_ops_key="ops"):
             pr["ok"] = False
             pr["failed"].append(("leanchecker", out[-500:]))
     r.cov["rule"] = what
-    d = os.path.join(core.BUILD, "scratch")
+    d = core.SCRATCH
     os.makedirs(d, exist_ok=True)
     base = os.path.join(d, f"{r.prop}-{mode}")
 
